@@ -2,9 +2,12 @@ import Qryn.Proofs.BatcherProgress
 import Qryn.Proofs.Handler
 import Qryn.Proofs.ErrorHandler
 import Qryn.Proofs.BatcherLocks
+import Qryn.Proofs.BatcherLate
+import Qryn.Proofs.PromiseModel
 import Qryn.Gen.Inserts
 import Qryn.Gen.ErrorHandler
 import Qryn.Gen.BatcherLocks
+import Qryn.Gen.Promise
 /-! # C01 — a push is acknowledged only after ClickHouse accepted all of its rows
 
 Property theorems only. Model: `Qryn.Ingest.Batcher` — `InsertServiceV2` as a state machine whose steps are
@@ -444,6 +447,105 @@ theorem running_read_outside_lock :
   decide
 
 end locks
+
+
+/-! ## `Request` whose unlocked `running` check passed just before the stop (`requestProgram`: the check is free) -/
+section late
+open Qryn.Ingest.BatcherLocks
+
+/-- **ack_sound with late requests.** Let any number of `Request` calls run their hold on a service that has
+    stopped meanwhile (they read `svc.running` before taking the lock): acknowledgements stay sound — a promise is
+    completed without error only after an accepted INSERT that contained its rows. The unlocked read costs
+    liveness at shutdown (`stopped_service_completes_nothing`), never safety. -/
+theorem ack_sound_late (k : Kind) (maxQueue : Nat) (R : ReqId → Req) (ops : List LOp)
+    (hW : ∀ op ∈ ops, LWellFormed R op) :
+    AckSound (planOf k) R (lrun (Svc.init (planOf k) maxQueue) ops).2 :=
+  Sound.ackSound _ (lrun_sound (plans_ok k) ops _ (init_inv maxQueue) hW []).2
+
+/-- **stopped_service_completes_nothing** (the shutdown limit of `resolve_eventually`, as a theorem). Once `Run`
+    has returned, whatever happens afterwards — refused requests, late requests (which are QUEUED), triggers,
+    connects, swaps, `Do` results, pings — no queued promise is ever completed: a `doPush` whose `Request` slipped
+    past the check waits forever. Liveness is claimed while the service runs. -/
+theorem stopped_service_completes_nothing (s : Svc) (hrun : s.running = false) (hinf : s.inflight = none) (id : ReqId)
+    (ops : List LOp) (hid : ∀ op ∈ ops, op.reqId ≠ some id) : ∀ o, Event.resolved id o ∉ (lrun s ops).2 :=
+  stopped_never_resolves ops s hrun hinf id hid
+
+/-- concretely: stop, then a late request with one row — it is queued (`pending = [7]`), a full flush round later it
+    still is, and nothing was ever emitted -/
+example :
+    let r : Req := { id := 7, ptype := .timeSamplesData, size := 30,
+                     arrays := [("MTimestampNS", [1]), ("MFingerprint", [2]), ("MType", [3]), ("MValue", [4]), ("MMessage", [5])] }
+    let res := lrun (Svc.init samplesPlan 0)
+      [.op .stop, .late r, .op (.trigger .timer), .op (.connect true), .op .swap, .op (.doResult .ok)]
+    res.2 = [] ∧ res.1.pending = [7] := by
+  decide
+
+end late
+
+/-! ## `promise.Promise`, statement by statement (`Qryn.Ingest.PromiseModel`, `Gen.Promise`) -/
+section promise
+open Qryn.Ingest
+
+/-- the statement order of `Done` (compare-and-swap guard, `res`, `err`, `close`) and of `Get` (receive, then the
+    fields) is the one in `writer/utils/promise/promise.go` now; `GetCtx` reads the fields only after its receive -/
+theorem promise_program_eq_gen :
+    PromiseModel.doneProgram = Gen.Promise.doneProgram ∧ PromiseModel.getProgram = Gen.Promise.getProgram ∧
+    Gen.Promise.getCtxReadsAfterLock = true ∧ Gen.Promise.newIsPendingOpen = true := by
+  decide
+
+/-- **promise_once_exact.** Take one fresh promise and ANY number of goroutines, each about to call
+    `Done(res, err)` with its own arguments or `Get()`. For EVERY schedule of their statements (compare-and-swap,
+    `p.res = …`, `p.err = …`, `close(p.lock)`; receive, read `res`, read `err`): the channel is never closed twice
+    (no panic); every `Get` that has returned holds the `res` AND the `err` of one and the same `Done` call — the one
+    whose compare-and-swap succeeded —, so all `Get`s agree, no value is torn between two `Done`s, and a zero value
+    is never observed. -/
+theorem promise_once_exact (ths : List PromiseModel.Th) (hF : ∀ t ∈ ths, PromiseModel.Fresh t) (sched : List Nat) :
+    (PromiseModel.run (PromiseModel.init ths) sched).c.fault = false ∧
+    ∀ (i r e : Nat), (PromiseModel.run (PromiseModel.init ths) sched).ths[i]? = some (PromiseModel.Th.get .ret r e) →
+      (PromiseModel.run (PromiseModel.init ths) sched).c.winner = some (r, e) ∧
+      ∃ j : Nat, ths[j]? = some (PromiseModel.Th.done r e .cas) := by
+  have hI := PromiseModel.run_inv sched _ (PromiseModel.init_inv ths hF)
+  refine ⟨hI.nofault, ?_⟩
+  intro i r e hi
+  have hg := hI.gets i _ r e hi
+  have hcl : (PromiseModel.run (PromiseModel.init ths) sched).c.closed = true := by
+    cases hc : (PromiseModel.run (PromiseModel.init ths) sched).c.closed with
+    | true => rfl
+    | false => have := hg.1 hc; cases this
+  have hp : (PromiseModel.run (PromiseModel.init ths) sched).c.pending = false := by
+    cases hp : (PromiseModel.run (PromiseModel.init ths) sched).c.pending with
+    | false => rfl
+    | true => have := (hI.pend hp).2.1; rw [hcl] at this; cases this
+  obtain ⟨w, hw, _, _⟩ := hI.won hp
+  obtain ⟨h1, h2⟩ := hg.2 w hw
+  have hwe : w = (r, e) := by
+    have a := h1 (Or.inr rfl); have b := h2 rfl
+    cases w; simp_all
+  subst hwe
+  refine ⟨hw, ?_⟩
+  obtain ⟨j, pc, hj⟩ := hI.origin _ hw
+  obtain ⟨pc', hj'⟩ := PromiseModel.run_done_args sched _ j r e pc hj
+  have := hF _ (List.mem_of_getElem? hj')
+  simp only [PromiseModel.Fresh] at this
+  subst this
+  exact ⟨j, hj'⟩
+
+/-- **promise_closed_stable.** Once the promise is closed nothing a later statement of any goroutine does changes
+    `res`, `err`, the winner or the closed flag — whatever the schedule. -/
+theorem promise_closed_stable (ths : List PromiseModel.Th) (hF : ∀ t ∈ ths, PromiseModel.Fresh t) (a b : List Nat)
+    (hc : (PromiseModel.run (PromiseModel.init ths) a).c.closed = true) :
+    (PromiseModel.run (PromiseModel.init ths) (a ++ b)).c = (PromiseModel.run (PromiseModel.init ths) a).c := by
+  rw [PromiseModel.run_append]
+  exact PromiseModel.run_closed b _ (PromiseModel.run_inv a _ (PromiseModel.init_inv ths hF)) hc
+
+/-- non-vacuity, and why the order of `Done`'s statements matters: two `Done`s racing with a `Get`; goroutine 1 wins
+    the compare-and-swap, goroutine 0 loses it, the `Get` returns goroutine 1's pair -/
+example :
+    (PromiseModel.run (PromiseModel.init [.done 5 0 .cas, .done 9 3 .cas, .get .wait 0 0]) [2, 1, 0, 2, 1, 1, 2, 1, 2, 2, 2]).ths
+      = [.done 5 0 .fin, .done 9 3 .fin, .get .ret 9 3] := by
+  decide
+
+end promise
 
 /-! ## non-vacuity -/
 
